@@ -110,10 +110,8 @@ def step (tbl : Array SpD) (stack : List (Impl C)) (tok : String) : Option (List
   | ["wsum", r, s, idx, b, cv], st => do
       let b ← (if b = "1" then some true else if b = "0" then some false else none)
       some (.leaf (.wsum (← sp r) (← sp s) (← parseIdx idx) b (← CRat.parse cv)) :: st)
-  | ["flat", s, r, cv], st => do
-      some (.leaf (.flatten (← sp s) (← sp r) (← CRat.parse cv)) :: st)
-  | ["flatinv", r, s, cv], st => do
-      some (.leaf (.flattenInv (← sp r) (← sp s) (← CRat.parse cv)) :: st)
+  | ["flat", s, r], st => do some (.leaf (.flatten (← sp s) (← sp r)) :: st)
+  | ["flatinv", r, s], st => do some (.leaf (.flattenInv (← sp r) (← sp s)) :: st)
   | ["proj", p, q, idx], st => do
       some (.leaf (.proj (← sp p) (← sp q) (← parseIdx idx)) :: st)
   | ["projadj", q, p, idx], st => do
